@@ -1,7 +1,7 @@
 # -*- coding: utf-8 -*-
 """Regenerates the *data* of ural/youtube.py and ural/google.py for the `youtube` part of C19:
 
-* the pattern string and flags of the seven youtube regexes and the three google regexes (the
+* the pattern string and flags of the eight youtube regexes and the three google regexes (the
   hand-written matchers of Model/Youtube.lean / Model/Google.lean are tied to these exact
   strings by table obligations `Ural.Props.C19.Youtube.*_pattern_unchanged`);
 * the five URL templates of `normalize_youtube_url`;
@@ -14,6 +14,8 @@ from translate import generator, lean_str, lean_str_list
 
 
 def _pat(name, r):
+    if r is None:  # the constant is gone from the module: the obligation will say so
+        return "def %sPattern : String := %s\ndef %sFlags : Nat := 0\n" % (name, lean_str("<missing>"), name)
     return "def %sPattern : String := %s\ndef %sFlags : Nat := %d\n" % (name, lean_str(r.pattern), name, int(r.flags))
 
 
@@ -34,6 +36,7 @@ def gen_c19_youtube():
         _pat("youtubeNestedNextV", y.NESTED_NEXT_V_RE),
         _pat("youtubeFragmentV", y.FRAGMENT_V_RE),
         _pat("youtubeQueryList", y.QUERY_LIST_RE),
+        _pat("youtubeUnsafeUrlChars", getattr(y, "UNSAFE_URL_CHARS_RE", None)),
         "\ndef youtubeVideoUrlTemplate : String := %s\n" % lean_str(y.YOUTUBE_VIDEO_URL_TEMPLATE),
         "def youtubeUserUrlTemplate : String := %s\n" % lean_str(y.YOUTUBE_USER_URL_TEMPLATE),
         "def youtubeChannelIdUrlTemplate : String := %s\n" % lean_str(y.YOUTUBE_CHANNEL_ID_URL_TEMPLATE),
